@@ -592,4 +592,14 @@ def live_grading_length(repo: Repo) -> RuleRun:
 live_grading_length.rule_id = "C04.LIVE-GRADING-LENGTH"
 
 
-RULES = [alignment_branch, simple_only_if_equal, preserve_carried, results_before_copy, axis_direction, coincidence_complete, grade_idempotent, axis_length, inversion_complete, live_grading_length]
+def no_rounding(repo: Repo) -> RuleRun:
+    """'the written grading describes the same physical sequence of cell sizes': counts and expansions are written as computed - a count written as a rounded fraction of the total moves a cell from one section to the next on long edges. Same rule as C03.NO-ROUNDING."""
+    from ..tolerance import no_rounding_rule
+
+    return no_rounding_rule(repo, PROP, "C04.NO-ROUNDING", ("grading.",))
+
+
+no_rounding.rule_id = "C04.NO-ROUNDING"
+
+
+RULES = [alignment_branch, simple_only_if_equal, preserve_carried, results_before_copy, axis_direction, coincidence_complete, grade_idempotent, axis_length, inversion_complete, live_grading_length, no_rounding]
